@@ -749,6 +749,8 @@ func checkInitialFlight(w *World, n *Nodes, sc *DialScenario, di int, cp *dialCa
 			fam := "other"
 			d := sc.Cfg.Derive
 			longer := d != nil && (strings.HasPrefix(d.Token, "len:") || strings.HasPrefix(d.Token, "prefix:") || d.DstCIDLen > 8 || d.SrcCIDLen > 0)
+			// (a token also comes from the application's own token store, on every dial after the first)
+			longer = longer || (len(p.Token) > 0 && n.CQ.TokenStore != nil)
 			severalDatagrams := strings.HasPrefix(sc.Cfg.Client, "chrome146") || (d != nil && d.PadCH > 0)
 			switch {
 			case severalDatagrams && (d == nil || (d.Builder != "nil" && d.Builder != "flight" && d.Builder != "rflight")):
@@ -999,7 +1001,13 @@ func checkClientHello(w *World, n *Nodes, sc *DialScenario, di int, cp *dialCapt
 		report("C11", "TransportParameterIDs() differs from the canonicalised parameter list on the wire", "dial #%d: wire %v reported %v", di, canon, cp.tpIDs)
 	}
 	// reference fingerprinter on the captured first flight (only meaningful for packet numbers it accepts)
-	if sc.Cfg.Derive == nil {
+	// (a token from the application's own token store, or a first attempt in another version, are the application's doing:
+	// the header then differs from the one the fingerprint was recorded with)
+	appToken := false
+	for _, p := range firstFlight(cp.conn) {
+		appToken = appToken || (len(p.Token) > 0 && n.CQ.TokenStore != nil)
+	}
+	if sc.Cfg.Derive == nil && !sc.VN && !appToken {
 		cp.fp = fingerprintOf(w, cp.conn)
 		cp.noPing = true
 		for _, p := range firstFlight(cp.conn) {
